@@ -82,7 +82,7 @@ def main():
                 "evidence_file": f"/verif/evidence/{pid}.json",
                 "replay_cmd_template": "cd /verif/harness && echo {path} > /tmp/gosymx-one.txt && GOFLAGS=-mod=mod GOPROXY=off go test -tags verif -vet=off -count=1 -v -run '^TestReplay$' . -args -vectors=/tmp/gosymx-one.txt",
                 "engine": "gosymx",
-                "level_claimed": {"category": "model_checking", "text": text, "design_ref": "DESIGN.md section " + ref},
+                "level_claimed": {"category": "model_checking", "text": text, "design_ref": "DESIGN.md section 4 (" + ref.split()[-1] + ")"},
                 "level_note": note,
                 "technique": TECH,
             })
